@@ -229,12 +229,38 @@ def transposition(chk, prog):
         if not its or r.outcome != "return" or not (isinstance(r.ret, Agg) and r.ret.variant == 0):
             continue
         n += 1
-        if len(its) != 1:
-            chk.fail(key + "/loops", "more than one loop after decompression: %d" % len(its))
-            continue
-        _, i, lo, hi = its[0]
         allocs = [e for e in r.trace if e.path.endswith("vec::from_elem")]
         LEN = allocs[0].args[1] if allocs else None
+        if len(its) == 2 and isinstance(LEN, T):
+            # frame loop around a register loop: element (frame f, register g) is buffer[g * (len/14) + f], appended in
+            # the order f-major, g-minor — the same map with i = 14 f + g
+            (_, f_, lo0, hi0), (_, g_, lo1, hi1) = its
+            frames = tm.binop("udiv", LEN, K(14, 64))
+            zero = lambda t: isinstance(t, T) and t.is_const() and t.val == 0
+            ok_range = zero(lo0) and zero(lo1) and isinstance(hi0, T) and (hi0 is frames or tm.equiv(hi0, frames) is True) and \
+                isinstance(hi1, T) and hi1.is_const() and hi1.val == 14
+            chk.check(ok_range, key + "/range", "the copy loops run over %s..%s and %s..%s; documented frames 0..len/14 around registers 0..14" % (lo0, hi0, lo1, hi1))
+            pos = r.notes.index(its[1])
+            pushes = [x for x in r.notes[pos:] if x[0] == "push"]
+            early = [x for x in r.notes[:pos] if x[0] == "push"]
+            chk.check(not early, key + "/starts-empty", "bytes are appended to the result outside the innermost loop")
+            if len(pushes) != 1:
+                chk.fail(key + "/one-byte", "an inner iteration appends %d bytes; documented exactly one" % len(pushes))
+                continue
+            v = pushes[0][2]
+            nm = tm.show(v) if isinstance(v, T) else getattr(v, "name", str(v))
+            idx = w.read_index.get(nm)
+            want = tm.binop("add", tm.binop("mul", g_, frames), f_)
+            same = idx is not None and (idx is want or tm.equiv(idx, want) is True)
+            if idx is not None and not same:
+                from zx import lia
+                same = lia.prove(dict(r.facts), [], [(lambda ctx: lia.lin(idx, ctx) - lia.lin(want, ctx), "==")], [idx, want])
+            chk.check(same, key + "/index", "iteration (frame f, register g) appends buffer[%s]; documented buffer[g * (len / 14) + f]" % (tm.show(idx) if idx is not None else nm))
+            continue
+        if len(its) != 1:
+            chk.fail(key + "/loops", "unexpected loop structure after decompression: %d loops" % len(its))
+            continue
+        _, i, lo, hi = its[0]
         ok_range = isinstance(lo, T) and lo.is_const() and lo.val == 0 and isinstance(LEN, T) and (hi is LEN or tm.equiv(hi, LEN) is True)
         chk.check(ok_range, key + "/range", "the copy loop runs over %s .. %s; documented 0 .. length of the decompressed data (%s)" % (lo, hi, LEN))
         pos = r.notes.index(its[0])
